@@ -1552,3 +1552,377 @@ def plan_c14(tier, seed, rng):
              'exact incoming counts (store validator); non-trivial = non-constant function',
         exhaustive=False,
     )
+
+
+# ---------------------------------------------------------------------------
+# C16: misuse
+# ---------------------------------------------------------------------------
+def c16_script(rng):
+    S = Script()
+    d0 = S.dom([2, 3, 2])
+    d1 = S.dom([2, 3, 2])           # same shape, different domain object
+    d2 = S.dom([3, 2])
+    F = {}
+    F['bs'] = S.forest(d0, 'mtb_s', rng.choice('FQ'))
+    F['bs2'] = S.forest(d0, 'mtb_s', rng.choice('FQ'))
+    F['is'] = S.forest(d0, 'mti_s', rng.choice('FQ'))
+    F['rs'] = S.forest(d0, 'mtr_s', rng.choice('FQ'))
+    F['ps'] = S.forest(d0, 'evp_s', rng.choice('FQ'))
+    F['br'] = S.forest(d0, 'mtb_r', rng.choice('FQI'))
+    F['ir'] = S.forest(d0, 'mti_r', rng.choice('FQI'))
+    F['bs_d1'] = S.forest(d1, 'mtb_s', 'F')
+    F['is_d1'] = S.forest(d1, 'mti_s', 'F')
+    F['bs_d2'] = S.forest(d2, 'mtb_s', 'F')
+    kinds = {'bs': 'mtb_s', 'bs2': 'mtb_s', 'is': 'mti_s', 'rs': 'mtr_s', 'ps': 'evp_s', 'br': 'mtb_r', 'ir': 'mti_r',
+             'bs_d1': 'mtb_s', 'is_d1': 'mti_s', 'bs_d2': 'mtb_s'}
+    sizes_of = {'bs_d2': [3, 2]}
+    E = {}
+    for k, f in F.items():
+        sizes = sizes_of.get(k, [2, 3, 2])
+        rel = KINDS[kinds[k]][0] == 'R'
+        E[k] = [S.new(f), S.new(f)]
+        for e in E[k]:
+            table_coll(S, e, f, kinds[k], rand_table(rng, kinds[k], points_of(sizes, rel), ARITH_PAL.get(kinds[k]), p_default=0.5), sizes)
+    allf = list(F.values())
+
+    def check():
+        S.add('obs')
+        for f in rng.sample(allf, 3):
+            S.add('snap %d' % f)
+
+    check()
+    cases = []
+    # operands / result from different domains
+    cases += ['bin UNION %d %d %d' % (E['bs'][0], E['bs'][1], E['bs_d1'][0]),
+              'bin INTERSECTION %d %d %d' % (E['bs_d1'][1], E['bs'][0], E['bs'][1]),
+              'bin PLUS %d %d %d' % (E['is'][0], E['is_d1'][0], E['is'][1]),
+              'bin UNION %d %d %d' % (E['bs'][0], E['bs_d2'][0], E['bs'][1]),
+              'un COPY %d %d' % (E['bs_d1'][0], E['bs'][0]),
+              'un COMPLEMENT %d %d' % (E['bs_d2'][0], E['bs'][0])]
+    # set versus relation
+    cases += ['bin UNION %d %d %d' % (E['bs'][0], E['br'][0], E['bs'][1]),
+              'bin DIFFERENCE %d %d %d' % (E['br'][0], E['br'][1], E['bs'][1]),
+              'bin PLUS %d %d %d' % (E['is'][0], E['ir'][0], E['is'][1]),
+              'un COPY %d %d' % (E['br'][0], E['bs'][0]),
+              'un COMPLEMENT %d %d' % (E['br'][0], E['bs'][0]),
+              'bin CROSS %d %d %d' % (E['bs'][0], E['bs'][0], E['bs'][1])]
+    # range / labeling mismatches
+    cases += ['bin PLUS %d %d %d' % (E['is'][0], E['is'][1], E['rs'][0]),
+              'bin MINIMUM %d %d %d' % (E['ps'][0], E['is'][0], E['ps'][1]),
+              'bin MULTIPLY %d %d %d' % (E['rs'][0], E['rs'][1], E['is'][0]),
+              'bin UNION %d %d %d' % (E['bs'][0], E['ps'][0], E['bs'][1])]
+    # a result edge attached to the wrong forest
+    cases += ['coll %d %d MAX 0 1 1 0 1 0' % (E['bs'][0], F['bs2']),
+              'const %d %d 3' % (E['bs'][0], F['is']),
+              'var %d %d 1 0 0' % (E['is'][0], F['rs'])]
+    # a value that does not fit a terminal
+    cases += ['const %d %d 3000000000' % (E['is'][0], F['is']),
+              'const %d %d -3000000000' % (E['is'][1], F['is'])]
+    # dereferencing an exhausted iterator
+    cases += ['iter %d deref' % E['bs'][0], 'iter %d deref' % E['ps'][0], 'iter %d deref' % E['br'][0]]
+    # library state misuse
+    cases += ['init']
+    rng.shuffle(cases)
+    for c in cases:
+        S.add(c)
+        check()
+        # valid work in between: the forests stay usable
+        k = rng.choice(['bs', 'is', 'ps'])
+        op = {'bs': 'UNION', 'is': 'PLUS', 'ps': 'MINIMUM'}[k]
+        S.add('bin %s %d %d %d' % (op, E[k][0], E[k][0], E[k][1]))
+    # errors raised deep inside a recursion: the zero divisor / the infinite
+    # subtrahend sits only in the last branch of a three-level function
+    np_ = points_of([2, 3, 2], False)
+    for rep in range(4):
+        A = [rng.choice([1, 2, 3, 5, -7]) for _ in range(np_)]
+        B = [rng.choice([1, 2, 3]) for _ in range(np_)]
+        B[np_ - 1] = 0
+        table_coll(S, E['is'][0], F['is'], 'mti_s', A, [2, 3, 2])
+        table_coll(S, E['is'][1], F['is'], 'mti_s', B, [2, 3, 2])
+        r = S.new(F['is'])
+        S.add('bin %s %d %d %d' % (rng.choice(['DIVIDE', 'MODULO']), r, E['is'][0], E['is'][1]))
+        check()
+        P1 = [rng.choice([1, 2, 5]) for _ in range(np_)]
+        P2 = [rng.choice([0, 1, 2]) for _ in range(np_)]
+        P2[np_ - 1] = INF
+        table_coll(S, E['ps'][0], F['ps'], 'evp_s', P1, [2, 3, 2])
+        table_coll(S, E['ps'][1], F['ps'], 'evp_s', P2, [2, 3, 2])
+        r2 = S.new(F['ps'])
+        S.add('bin MINUS %d %d %d' % (r2, E['ps'][0], E['ps'][1]))
+        check()
+    # misuse of a detached edge
+    det = S.new(-1)
+    cases2 = ['bin UNION %d %d %d' % (E['bs'][0], det, E['bs'][1]),
+              'bin UNION %d %d %d' % (det, E['bs'][0], E['bs'][1]),
+              'un COPY %d %d' % (E['bs'][0], det),
+              'un COMPLEMENT %d %d' % (det, E['bs'][0]),
+              'card %d' % det, 'iter %d' % det, 'evalat %d 0 0 0' % det]
+    for c in cases2:
+        S.add(c)
+        check()
+    S.add('cleanup')
+    S.add('cleanup')
+    return S.text()
+
+
+@plan('C16')
+def plan_c16(tier, seed, rng):
+    scripts = [('m%03d' % i, c16_script(rng)) for i in range(12 if tier == 'thorough' else 4)]
+    return dict(
+        scripts=scripts, validators=[API, STORE], tags={'C16', 'HELD', 'C02'}, asan=True,
+        mc=[('MddApiMC.tla', 'ApiLifeMC.cfg', {})],
+        rule='model: ErrorAtomic (an error step changes nothing but the error code) on the bounded API state machine; implementation: every misuse in the '
+             'catalogue - operands or result from another domain (same shape, other shape), set versus relation, range / labeling mismatch, a construction '
+             'into an edge attached to another forest, integers that do not fit a terminal, dereferencing an exhausted iterator, double initialisation and '
+             'double clean-up, operations, queries and evaluation on a detached edge, and errors met deep in a recursion (a zero divisor or infinite '
+             'subtrahend only in the last branch of a three-level function) - in seeded random order with valid operations in between; after every provoked '
+             'error all held edges are re-evaluated (must be unchanged) and three forests are snapshot (must satisfy the reduction rule and exact counts); '
+             'thorough repeats the executions under AddressSanitizer; non-trivial = an error outcome or a non-constant result',
+        exhaustive=False,
+    )
+
+
+# ---------------------------------------------------------------------------
+# C17: library / domain / forest lifecycles
+# ---------------------------------------------------------------------------
+def c17_script(rng, steps):
+    S = Script()        # starts with 'init'
+    lib = True
+    doms = {}           # d -> sizes (alive)
+    fors = {}           # f -> (d, kind) (alive)
+    slots = {}          # slot -> forest index or None (detached); deleted slots are removed
+    set_kinds = ['mtb_s', 'mti_s', 'evp_s']
+
+    def alive_edges(f=None):
+        return [s for s, g in slots.items() if g is not None and (f is None or g == f)]
+
+    def detach_forest(f):
+        for s in list(slots):
+            if slots[s] == f:
+                slots[s] = None
+
+    for step in range(steps):
+        r = rng.random()
+        if not lib:
+            if r < 0.15:
+                S.add('cleanup')                    # misuse: not initialised
+            else:
+                S.add('init')
+                lib = True
+            S.add('obs')
+            continue
+        if r < 0.02:
+            S.add('init')                           # misuse: already initialised
+        elif (r < 0.06 and len(doms) < 3) or not doms:
+            sizes = [rng.choice([2, 3]) for _ in range(rng.choice([1, 2]))]
+            d = S.dom(sizes)
+            doms[d] = sizes
+        elif (r < 0.14 and len(fors) < 5) or not fors:
+            d = rng.choice(list(doms))
+            k = rng.choice(set_kinds)
+            f = S.forest(d, k, rng.choice('FQ'), dele=rng.choice(DEL))
+            fors[f] = (d, k)
+        elif r < 0.24 or not alive_edges():
+            f = rng.choice(list(fors) + [-1])
+            s = S.new(f)
+            slots[s] = f if f >= 0 else None
+        elif r < 0.38:
+            s = rng.choice(alive_edges())
+            f = slots[s]
+            d, k = fors[f]
+            table_coll(S, s, f, k, rand_table(rng, k, points_of(doms[d], False), ARITH_PAL.get(k), p_default=0.5), doms[d])
+        elif r < 0.68:
+            # an operation inside a forest, or across two forests of one domain
+            a = rng.choice(alive_edges())
+            fa = slots[a]
+            d, k = fors[fa]
+            peers = [s for s in alive_edges() if fors[slots[s]][0] == d]
+            b = rng.choice(peers)
+            c = rng.choice(peers)
+            if fors[slots[b]][1] == k and fors[slots[c]][1] == k:
+                op = {'mtb_s': 'UNION', 'mti_s': 'PLUS', 'evp_s': 'MINIMUM'}[k]
+                S.add('bin %s %d %d %d' % (op, c, a, b))
+            else:
+                S.add('un COPY %d %d' % (b, a))
+        elif r < 0.73 and slots:
+            s = rng.choice(list(slots))
+            t = S.slot()
+            S.add('copy %d %d' % (t, s))
+            slots[t] = slots[s]
+        elif r < 0.77 and len(slots) >= 2:
+            s, t = rng.sample(list(slots), 2)
+            S.add('asg %d %d' % (s, t))
+            slots[s] = slots[t]
+        elif r < 0.80 and slots:
+            s = rng.choice(list(slots))
+            S.add('del %d' % s)
+            del slots[s]
+        elif r < 0.83 and slots:
+            s = rng.choice(list(slots))
+            f = rng.choice(list(fors) + [-1])
+            S.add('attach %d %d' % (s, f))
+            if f < 0:
+                slots[s] = None
+            elif slots[s] != f:
+                slots[s] = f
+        elif r < 0.88 and fors:
+            f = rng.choice(list(fors))
+            S.add('dfor %d' % f)
+            del fors[f]
+            detach_forest(f)
+            S.add('obs')
+        elif r < 0.905 and doms:
+            d = rng.choice(list(doms))
+            S.add('ddom %d' % d)
+            for f in [g for g in fors if fors[g][0] == d]:
+                del fors[f]
+                detach_forest(f)
+            del doms[d]
+            S.add('obs')
+        elif r < 0.975:
+            # use of a detached edge
+            det = [s for s, g in slots.items() if g is None]
+            if det and alive_edges():
+                x = rng.choice(det)
+                a = rng.choice(alive_edges())
+                S.add(rng.choice(['bin UNION %d %d %d' % (a, x, a), 'un COPY %d %d' % (a, x), 'card %d' % x,
+                                  'iter %d' % x, 'bin UNION %d %d %d' % (x, a, a)]))
+        else:
+            S.add('cleanup')
+            lib = False
+            doms.clear()
+            fors.clear()
+            for s in slots:
+                slots[s] = None
+        if step % 7 == 6 and lib:
+            S.add('obs')
+            for f in list(fors)[:2]:
+                S.add('snap %d' % f)
+    if lib:
+        S.add('obs')
+        S.add('cleanup')
+    return S.text()
+
+
+@plan('C17')
+def plan_c17(tier, seed, rng):
+    scripts = [('y%03d' % i, c17_script(rng, 160 if tier == 'thorough' else 90)) for i in range(40 if tier == 'thorough' else 10)]
+    return dict(
+        scripts=scripts, validators=[API, STORE], tags={'C17', 'C16', 'HELD', 'C06'}, asan=True,
+        mc=[('MddApiMC.tla', 'ApiLifeMC3.cfg' if tier == 'thorough' else 'ApiLifeMC.cfg', {})],
+        rule='model: every order of initialise / create domain / create forest / new, copy, assign, attach, delete edge / build / union / destroy forest / '
+             'destroy domain / clean up within 2 domains, 2 (thorough 3) forests and 2 (3) edges, with invariants AttachedIsLive, FidUnique and action '
+             'properties FidMonotone, FidNeverReused, OtherDomainsUntouched, ErrorAtomic; implementation: seeded random lifecycles over up to 3 domains and 5 '
+             'forests (boolean, integer and EV+ sets) with compute tables populated by operations inside and across forests of a domain, forests and domains '
+             'destroyed while edges are attached, detached edges used in operations and queries, repeated initialise / clean-up cycles incl. double calls; after '
+             'each step the specification\'s state (forest identifiers, attachment and function of every edge) is compared with the library\'s; surviving forests '
+             'are snapshot; thorough repeats the executions under AddressSanitizer; non-trivial = non-constant function or an error outcome',
+        exhaustive=False,
+    )
+
+
+# ---------------------------------------------------------------------------
+# C18: memory managers
+# ---------------------------------------------------------------------------
+MEM = ('MemMgrTrace.tla', 'MemMgrTrace.cfg', 'mem')
+
+
+def c18_script(rng, style, gran, nops, pattern):
+    lines = ['mm %s %d 2' % (style, gran)]
+    live = []
+    nid = 0
+    maxsz = 15 if style == 'FL' else rng.choice([8, 40, 300])
+
+    def size():
+        x = rng.random()
+        if x < 0.5:
+            return rng.randint(2, min(8, maxsz))
+        if x < 0.85:
+            return rng.randint(2, min(40, maxsz))
+        return rng.randint(2, maxsz)
+
+    for step in range(nops):
+        if pattern == 'churn':
+            grow = rng.random() < (0.55 if len(live) < 60 else 0.4)
+        elif pattern == 'sawtooth':
+            grow = (step // 150) % 2 == 0
+        elif pattern == 'holes':
+            # allocate a run, free every other chunk (creates holes), then allocate sizes that split / exactly fill them
+            grow = (step % 40) < 25
+        else:
+            grow = rng.random() < 0.5
+        if grow or not live:
+            nid += 1
+            lines.append('req %d %d' % (nid, size()))
+            live.append(nid)
+        else:
+            if pattern == 'holes':
+                i = (step * 2) % len(live)
+            elif pattern == 'sawtooth' and rng.random() < 0.5:
+                i = len(live) - 1
+            else:
+                i = rng.randrange(len(live))
+            lines.append('rec %d' % live.pop(i))
+        if step % 50 == 49:
+            lines.append('chk')
+    lines.append('chk')
+    rng.shuffle(live)
+    for i in live:
+        lines.append('rec %d' % i)
+    # after everything was recycled the memory must be usable again
+    for k in range(10):
+        nid += 1
+        lines.append('req %d %d' % (nid, size()))
+    lines.append('chk')
+    return '\n'.join(lines) + '\n'
+
+
+@plan('C18')
+def plan_c18(tier, seed, rng):
+    scripts = []
+    n = 0
+    for style in ['OG', 'AG', 'HE', 'MA', 'FL']:
+        for gran in [4, 8]:
+            for pattern in ['churn', 'sawtooth', 'holes', 'random']:
+                reps = 3 if tier == 'thorough' else 1
+                for _ in range(reps):
+                    scripts.append(('g%03d_%s%d_%s' % (n, style, gran, pattern),
+                                    c18_script(rng, style, gran, 6000 if tier == 'thorough' else 700, pattern)))
+                    n += 1
+    return dict(
+        scripts=scripts, prog='memdrive', validators=[MEM], tags={'C18'}, asan=True, timeout=60,
+        mc=[('MemMgrMC.tla', 'MemMgrMC.cfg', {})],
+        rule='model: MemMgrMC - every request / recycle sequence over an arena of 10 slots with every placement a hole manager may choose (invariants '
+             'NoOverlap, InArena, Conservation); implementation: for each of the five styles (original grid, array+grid, heap, malloc, free lists) and both '
+             'slot widths (4 and 8 bytes), seeded request / recycle sequences in four patterns (steady churn, grow-and-shrink sawtooth, hole creation followed '
+             'by splitting and exact-fit requests, uniform random) with sizes from the minimum to 300 slots (free lists: to their 15-slot limit); every live '
+             'chunk carries a pattern derived from its identity that is verified before it is recycled and at checkpoints; TLC accepts a request only if the '
+             'chunk is at least as large as requested, its handle non-zero, and disjoint from every live chunk of the specification\'s state, and a recycle only '
+             'of a live chunk with intact contents; thorough repeats the executions under AddressSanitizer; non-trivial = request served while other chunks are live',
+        exhaustive=False,
+    )
+
+
+# ---------------------------------------------------------------------------
+# C19: terminal and edge-value encoding
+# ---------------------------------------------------------------------------
+CODEC = ('CodecTrace.tla', 'CodecTrace.cfg', 'codec')
+
+
+@plan('C19')
+def plan_c19(tier, seed, rng):
+    n = 16 if tier == 'thorough' else 4
+    count = 12000 if tier == 'thorough' else 5000
+    scripts = [('c%02d' % i, '%d %d\n' % (seed * 1000 + i, count)) for i in range(n)]
+    return dict(
+        scripts=scripts, prog='codecdrive', validators=[CODEC], tags={'C19'},
+        mc=[('CodecMC.tla', 'CodecMC.cfg', {})],
+        rule='model: Codec checked by TLC for *every* word of widths 6, 8, 10 and 12 bits (round trip of every integer of the range, injectivity, zero <=> '
+             'transparent handle, real round trip up to the dropped low bit, distinct rounded values get distinct handles); implementation (32-bit handles): '
+             'both booleans; integers 0, +-1, +-2^k, +-2^k+-1 for every k, both range ends and the values just outside (VALUE_OVERFLOW required), seeded '
+             'random words; floats: both zeros, the smallest subnormals, every exponent with boundary and random mantissas, both infinities, largest finite, '
+             'seeded random non-NaN bit patterns - each through class terminal and through forest::handleForValue / getValueFromHandle; constants through '
+             'createConstant + evaluate in MT and EV+ forests including +infinity; TLC recomputes EncInt / EncReal / DecInt / DecReal with Q = 2^30 on every '
+             'line; non-trivial = every line.  The full 2^32 sweep is beyond TLC (see DESIGN.md section 8)',
+        exhaustive=False,
+    )
